@@ -30,6 +30,10 @@ func concCase(c *harness.Case, forProp string) concCfg {
 	switch forProp {
 	case "C01":
 		cfg.futurePct = 3
+		if c.Index%4 == 2 {
+			// clients that have given up: their request context is already cancelled when the request is made
+			cfg.deadCtxPct = 6
+		}
 	case "C02":
 		cfg.readers = 2
 		cfg.futurePct = 2
